@@ -378,7 +378,7 @@ Section RangeEff.
   Variable consts : pydict string.
   Variable preds funcs : pydict signature.
   Variable dpre deff : nat.
-  Hypothesis Hnum : forall d s x, num s = Some x -> num_ok num d x = true.
+  Hypothesis Hnum : forall d, d = dpre \/ d = deff -> forall s x, num s = Some x -> num_ok num d x = true.
   Hypothesis Hfres : forall k, str_in k ("=" :: comparison_ops ++ assignment_ops) = true -> dget funcs k = None.
   Hypothesis Hnum_cmp : forall c r x, num (String c r) = Some x -> str_in (String c EmptyString) comparison_ops = false.
 
@@ -413,7 +413,7 @@ Section RangeEff.
     construct num funcs (tree_fuel e) e = Ok t -> wf_numeff num funcs deff t = true.
   Proof.
     intros Hh Ha H. unfold tree_fuel in H.
-    pose proof (construct_wf num funcs deff (Hnum deff) _ _ _ H) as [Hw _].
+    pose proof (construct_wf num funcs deff (Hnum deff (or_intror eq_refl)) _ _ _ H) as [Hw _].
     destruct e as [s|l].
     - exfalso. cbn [head_of] in Hh. destruct s as [|c r]; [discriminate|]. injection Hh as <-.
       rewrite assignment_not_single in Ha. discriminate.
@@ -484,7 +484,7 @@ Section RangeEff.
       - destruct cond as [s|[|x subs]]; try reflexivity. rewrite no_vac_slist in Hcond.
         apply andb_true_iff in Hcond. destruct Hcond as [_ Hc]. cbn [forallb] in Hc. apply andb_true_iff in Hc. apply Hc.
       - cbn [forallb]. rewrite Hcond. reflexivity. }
-    destruct (parse_pre_wf num tt consts preds funcs dpre (Hnum dpre) Hfres_cmp Hnum_cmp _ sg _ _ ante Hante Hnodes eq_refl)
+    destruct (parse_pre_wf num tt consts preds funcs dpre (Hnum dpre (or_introl eq_refl)) Hfres_cmp Hnum_cmp _ sg _ _ ante Hante Hnodes eq_refl)
       as (Wa & Oa & _).
     assert (Hall : Forall (fun r => match r with inl l => wf_reslit ck sg l = true | inr t => wf_numeff num funcs deff t = true end) rs).
     { destruct (String.eqb rh "and").
@@ -589,12 +589,12 @@ Section RangeEff.
         assert (Hsingle : forall fuel, parse_pre num tt consts preds funcs fuel sg empty_pre [SList (hd :: args)] = Ok p ->
                           wf_pre num tyk ck preds funcs dpre sg p = true /\ pre_op p = "and").
         { intros fuel Hs.
-          destruct (parse_pre_wf num tt consts preds funcs dpre (Hnum dpre) Hfres_cmp Hnum_cmp fuel sg empty_pre _ p Hs) as (W & O & _);
+          destruct (parse_pre_wf num tt consts preds funcs dpre (Hnum dpre (or_introl eq_refl)) Hfres_cmp Hnum_cmp fuel sg empty_pre _ p Hs) as (W & O & _);
             [cbn [forallb]; rewrite no_vac_slist, Hv, Hsub; reflexivity|reflexivity|]. split; [exact W|exact O]. }
         assert (Hand : forall fuel, parse_pre num tt consts preds funcs fuel sg empty_pre args = Ok p ->
                        wf_pre num tyk ck preds funcs dpre sg p = true /\ pre_op p = "and").
         { intros fuel Hs. cbn [forallb] in Hsub. apply andb_true_iff in Hsub. destruct Hsub as [_ Hargs].
-          destruct (parse_pre_wf num tt consts preds funcs dpre (Hnum dpre) Hfres_cmp Hnum_cmp fuel sg empty_pre _ p Hs Hargs eq_refl) as (W & O & _).
+          destruct (parse_pre_wf num tt consts preds funcs dpre (Hnum dpre (or_introl eq_refl)) Hfres_cmp Hnum_cmp fuel sg empty_pre _ p Hs Hargs eq_refl) as (W & O & _).
           split; [exact W|exact O]. }
         destruct hd as [h|sub].
         + repeat match type of Hp with
